@@ -207,7 +207,13 @@ impl InnerLock {
     pub fn try_read(&self) -> bool {
         self.state
             .fetch_update(Acquire, Relaxed, |s| {
-                is_read_lockable(s).then_some(s + READ_LOCKED)
+                // Not `then_some`: its argument is evaluated eagerly, and `s + READ_LOCKED`
+                // overflows when the lock is write-locked with both waiting bits set.
+                if is_read_lockable(s) {
+                    Some(s + READ_LOCKED)
+                } else {
+                    None
+                }
             })
             .is_ok()
     }
@@ -297,7 +303,13 @@ impl InnerLock {
     pub fn try_write(&self) -> bool {
         self.state
             .fetch_update(Acquire, Relaxed, |s| {
-                is_unlocked(s).then_some(s + WRITE_LOCKED)
+                // Not `then_some`: its argument is evaluated eagerly, and `s + WRITE_LOCKED`
+                // overflows whenever the lock is held while both waiting bits are set.
+                if is_unlocked(s) {
+                    Some(s + WRITE_LOCKED)
+                } else {
+                    None
+                }
             })
             .is_ok()
     }
